@@ -52,3 +52,37 @@ def stubbed(module, **names):
 
 
 _MISSING = object()
+
+
+def make_svd_stub(S, rec=None, exact=False, square_u=False):
+    """svd_interface by contract (A3): U has orthonormal columns, S >= 0, V has orthonormal rows; with `exact` the
+    hypothesis 'the truncated SVD is exact' (U diag(S) V = M) is registered (C09: requested rank >= rank of the unfolding).
+    Natively the real function is called and its results recorded under the same opaque names."""
+    from . import gtensor as G
+
+    def stub(matrix, n_eigenvecs=None, **kw):
+        if rec is not None:
+            rec.append(dict(matrix=matrix, n_eigenvecs=n_eigenvecs, kw=dict(kw), at=G.caller_snapshot()))
+        if S.name == "sym":
+            k = n_eigenvecs
+            U = G.opaque_tensor("SVDU", [G.axis_sizes(matrix)[0], k], matrix.dtype, ortho_axis=2 if square_u else 0)
+            Sv = G.opaque_tensor("SVDS", [k], "float64")
+            V = G.opaque_tensor("SVDV", [k, G.axis_sizes(matrix)[1]], matrix.dtype, ortho_axis=1)
+            G.NONNEG.add(G.name_of(Sv))
+            if exact:
+                G.register_factorisation((G.name_of(U), G.name_of(Sv), G.name_of(V)), matrix)
+            if rec is not None:
+                rec[-1].update(U=U, S=Sv, V=V)
+            return U, Sv, V
+        import numpy as np
+        from tensorly.tenalg.svd import svd_interface as real
+        if rec is not None:
+            rec[-1]["matrix"] = np.array(matrix, copy=True)
+        out = real(matrix, n_eigenvecs=n_eigenvecs, **kw)
+        S.record("SVDU", out[0])
+        S.record("SVDS", out[1])
+        S.record("SVDV", out[2])
+        if rec is not None:
+            rec[-1].update(U=out[0], S=out[1], V=out[2])
+        return out
+    return stub
